@@ -62,7 +62,11 @@ def array_field(e, env, depth=0):
         raise Undecided(f"definition chain too deep at `{U(e)[:60]}`")
     if isinstance(e, ast.Name):
         if e.id in env:
-            return array_field(env[e.id], env, depth + 1)
+            d = env[e.id]
+            if _is_index_vector(d):
+                # a vector of row positions: as a value it is "the rows it selects", named by the local that holds it
+                return Field("<rows>", "<index>", selector=e.id)
+            return array_field(d, env, depth + 1)
         raise Undecided(f"`{e.id}` has no single definition")
     if isinstance(e, ast.Call):
         cn = call_name(e)
@@ -103,6 +107,11 @@ def array_field(e, env, depth=0):
             return f
         raise Undecided(f"unsupported subscript `{U(e)[:60]}`")
     raise Undecided(f"`{U(e)[:60]}` is not a data column")
+
+
+def _is_index_vector(d):
+    return (isinstance(d, ast.Call) and call_name(d) in ("np.flatnonzero",) and len(d.args) == 1) or \
+        (isinstance(d, ast.Subscript) and isinstance(d.value, ast.Call) and call_name(d.value) in ("np.where", "np.nonzero") and len(d.value.args) == 1 and U(d.slice) == "0")
 
 
 def _index_chain(e, env, depth=0):
@@ -249,6 +258,18 @@ def _value(x, bound, env, index=None, lenv=None):
             if f.col is not None:
                 raise Undecided(f"`{U(x)}` indexes a scalar field")
             return f.copy(col=x.slice.value)
+        # (per-row value)[k]: column k of a row-valued field
+        if isinstance(x.slice, ast.Constant) and isinstance(x.slice.value, int) and isinstance(x.value, ast.Subscript):
+            f = _value(x.value, bound, env, index, lenv)
+            if f.col is not None:
+                raise Undecided(f"`{U(x)}` indexes a scalar field")
+            return f.copy(col=x.slice.value)
+        # X[r] with r a zipped element of a vector of row positions: the column at those rows
+        if isinstance(x.slice, ast.Name) and x.slice.id in bound and bound[x.slice.id].attr == "<index>":
+            f = array_field(x.value, env)
+            if f.selector is not None:
+                raise Undecided(f"`{U(x)}` indexes an already selected array by a row position")
+            return f.copy(selector=bound[x.slice.id].selector)
         # index loop: X[i], X[i][c], X[i, c]
         if index is not None:
             sl = x.slice
@@ -299,6 +320,11 @@ def sink_feed(fnode, env, sink_tail):
         for x in ast.walk(s):
             if isinstance(x, ast.Assign) and len(x.targets) == 1 and isinstance(x.targets[0], ast.Name):
                 lenv[x.targets[0].id] = x.value
+            elif isinstance(x, ast.Assign) and len(x.targets) == 1 and isinstance(x.targets[0], (ast.Tuple, ast.List)) and all(isinstance(t, ast.Name) for t in x.targets[0].elts) \
+                    and not isinstance(x.value, (ast.Tuple, ast.List)):
+                # a, b = row  ->  a = row[0]; b = row[1]
+                for j, t in enumerate(x.targets[0].elts):
+                    lenv[t.id] = ast.Subscript(value=x.value, slice=ast.Constant(value=j), ctx=ast.Load())
     if st.kind == "zip":
         bound = _bind(loop.target, st.fields)
         index = None
